@@ -617,24 +617,24 @@ def judge_foxo(inp, obs, lr):
 
 CLAUSES = [
     Clause("words_corr", "corr", gen_words, run_words, judge_words, lean=lean_words, site="utils.words",
-           budget={"quick": 120, "thorough": 2500},
+           budget={"quick": 200, "thorough": 6000},
            what="invert_gen, formal_inverse, simplify_word, commutator, fox_word_derivative, parse_word (both modes), generator-name guards vs the Lean model; words exhaustive to length 4 over {a,b,A,B}, random to length 60"),
     Clause("rep_corr", "corr", gen_rep, run_rep, judge_rep, lean=lean_rep, site="Representation.__setitem__/__getitem__/elements",
-           budget={"quick": 60, "thorough": 1500},
+           budget={"quick": 150, "thorough": 4500},
            what="assign/re-assign histories (both letters, compute_inverse on/off, invalid names, wrong shapes, singular matrices) then rep[w], rep.elements, generators dict vs Lean Rep.setGenerator/wordValue over Q and Z; GL(n) n=1..5, single- and multi-character names, words exhaustive to length 3 and random to length 60"),
     Clause("derived_corr", "corr", gen_derived, run_derived, judge_derived, lean=lean_derived, site="Representation._compose and friends",
-           budget={"quick": 72, "thorough": 1800},
+           budget={"quick": 144, "thorough": 5400},
            what="copy, conjugate (with/without inv_mat), dual, astype, subgroup (list/dict/compute_inverse=False), tensor_product, symmetric_square, gln_adjoint, sln_adjoint: derived[w] vs Lean model"),
     Clause("fox_corr", "corr", gen_fox, run_fox, judge_fox, lean=lean_fox, site="Representation.differential/cocycle_matrix/coboundary_matrix",
-           budget={"quick": 50, "thorough": 1500},
+           budget={"quick": 100, "thorough": 4500},
            what="differential (all blocks and single generator), cocycle_matrix, coboundary_matrix of random relators vs Lean model"),
     Clause("hom_oracle", "oracle", gen_hom, run_hom, judge_hom, site="Representation.__getitem__",
-           budget={"quick": 150, "thorough": 5000},
+           budget={"quick": 400, "thorough": 15000},
            what="rho(uv)=rho(u)rho(v), rho('')=I, inverse letters, free reduction, formal inverse, elements(); float, complex and int64 generators"),
     Clause("derived_oracle", "oracle", gen_dor, run_dor, judge_dor, site="Representation derived constructors",
-           budget={"quick": 120, "thorough": 4000},
+           budget={"quick": 360, "thorough": 12000},
            what="derived[w] = F(rep[w]) with F computed independently in numpy (kron, inverse transpose, Sym^2 from scratch, Ad action), incl. compose(hom), Projective/HyperbolicRepresentation"),
     Clause("fox_oracle", "oracle", gen_foxo, run_foxo, judge_foxo, site="Representation.differential",
-           budget={"quick": 120, "thorough": 4000},
+           budget={"quick": 360, "thorough": 12000},
            what="Fox fundamental formula, D(w) @ coboundary = I - rho(w), cocycle @ coboundary = 0 for satisfied relations (commuting generators, torsion)"),
 ]
